@@ -1,6 +1,7 @@
 package worlds
 
 import (
+	"fmt"
 	"verif/sim"
 )
 
@@ -26,6 +27,16 @@ type SimMem struct {
 	Reenter func(addr uint32)
 	// OnWrite, when set, runs at the start of every Write (a bank-switching register)
 	OnWrite func(addr uint32, v byte)
+	// Fault, when set, says at which addresses the device refuses access by panicking (an
+	// unmapped region behind a caller-supplied memory): an injected fault
+	Fault func(addr uint32) bool
+}
+
+// DeviceFault is what a faulting SimMem panics with.
+type DeviceFault struct{ Addr uint32 }
+
+func (d DeviceFault) Error() string {
+	return fmt.Sprintf("simulated device: no memory at %06x", d.Addr)
 }
 
 type MemEvent struct {
@@ -59,6 +70,9 @@ func (m *SimMem) Read(addr uint32) byte {
 	if m.Reenter != nil {
 		m.Reenter(addr)
 	}
+	if m.Fault != nil && m.Fault(addr) {
+		panic(DeviceFault{addr})
+	}
 	m.Reads++
 	if addr >= 1<<24 {
 		m.High++
@@ -79,6 +93,9 @@ func (m *SimMem) Write(addr uint32, v byte) {
 	}
 	if m.OnWrite != nil {
 		m.OnWrite(addr, v)
+	}
+	if m.Fault != nil && m.Fault(addr) {
+		panic(DeviceFault{addr})
 	}
 	m.Writes++
 	if addr >= 1<<24 {
